@@ -6,5 +6,5 @@ Init == k \in Kinds /\ s \in Shapes /\ p \in Positions
 Next == UNCHANGED <<k, s, p>>
 Spec == Init /\ [][Next]_<<k, s, p>>
 InvTableSane == TableSane
-Emit == PrintT(<<"SHAPE", ToJson([kind |-> k, shape |-> s, pos |-> p, canonical |-> Canonical(k, s)])>>)
+Emit == PrintT(<<"SHAPE", ToJson([kind |-> k, shape |-> s, pos |-> p, canonical |-> Canonical(k, s), unconvertible |-> Unconvertible(k, s)])>>)
 =============================================================================
